@@ -8,7 +8,18 @@
 //!    `Module::get_function` fills with `self.inner.clone()`;
 //!  * `codegen` clones every registered constant (`declare_constant`) and the
 //!    `Arc` of every referenced registered function into the module;
-//!  * which `Drop` impls call `free_memory`.
+//!  * which `Drop` impls call `free_memory`;
+//!  * what the closure returned by `TypedFunc::into_func` captures (the body
+//!    lives inside `macro_rules! call_impl`, so it is analysed on the token
+//!    level: a use of `self` as a whole — `self.call(…)` — captures the whole
+//!    handle; only `self.<field>` uses capture just those fields under the
+//!    disjoint-capture rule of edition ≥ 2021, and the other fields are dropped
+//!    when `into_func` returns);
+//!  * every address the code generator bakes into the machine code
+//!    (`iconst(ty, <ptr> as usize as i64)` …) and every data object it defines
+//!    in the JIT module, with the struct that owns the pointee after
+//!    `ModuleBuilder::finalize` (JIT module / `ModuleData` / `Module<Ctx>` =
+//!    the package / nobody).
 //! Shapes that are not recognised are extraction failures, never defaults.
 #[allow(unused_imports)]
 use super::{Gen, Target};
@@ -27,6 +38,17 @@ fn norm<T: ToTokens>(t: &T) -> String {
 struct ImplFns {
     cur: Option<String>,
     out: Vec<(String, String, syn::Block)>,
+    /// parallel to `out`: the names bound by the function's parameters
+    params: Vec<Vec<String>>,
+}
+fn sig_idents(sig: &syn::Signature) -> Vec<String> {
+    let mut p = PatIdents(vec![]);
+    for a in &sig.inputs {
+        if let syn::FnArg::Typed(t) = a {
+            p.visit_pat(&t.pat);
+        }
+    }
+    p.0
 }
 impl<'ast> Visit<'ast> for ImplFns {
     fn visit_item_impl(&mut self, i: &'ast syn::ItemImpl) {
@@ -45,11 +67,13 @@ impl<'ast> Visit<'ast> for ImplFns {
             f.sig.ident.to_string(),
             f.block.clone(),
         ));
+        self.params.push(sig_idents(&f.sig));
         syn::visit::visit_impl_item_fn(self, f);
     }
     fn visit_item_fn(&mut self, f: &'ast syn::ItemFn) {
         self.out
             .push((String::new(), f.sig.ident.to_string(), (*f.block).clone()));
+        self.params.push(sig_idents(&f.sig));
         syn::visit::visit_item_fn(self, f);
     }
 }
@@ -101,6 +125,466 @@ fn derives(file: &syn::File, name: &str, what: &str) -> bool {
     f.2
 }
 
+// ---------------------------------------------------------------- into_func capture
+
+use proc_macro2::{Delimiter, TokenStream, TokenTree};
+
+/// all brace bodies of `fn <name>(self) … { … }` inside a token stream (any depth)
+fn macro_fn_bodies(ts: TokenStream, name: &str, out: &mut Vec<(String, TokenStream)>) {
+    let toks: Vec<TokenTree> = ts.into_iter().collect();
+    let mut i = 0;
+    while i < toks.len() {
+        if let TokenTree::Ident(id) = &toks[i] {
+            if id == "fn" {
+                if let Some(TokenTree::Ident(n)) = toks.get(i + 1) {
+                    if n == name {
+                        let params = match toks.get(i + 2) {
+                            Some(TokenTree::Group(g)) if g.delimiter() == Delimiter::Parenthesis => {
+                                g.stream().to_string().replace(' ', "")
+                            }
+                            _ => String::from("?"),
+                        };
+                        let mut j = i + 3;
+                        while j < toks.len() {
+                            if let TokenTree::Group(g) = &toks[j] {
+                                if g.delimiter() == Delimiter::Brace {
+                                    out.push((params.clone(), g.stream()));
+                                    break;
+                                }
+                            }
+                            j += 1;
+                        }
+                        i = j;
+                    }
+                }
+            }
+        }
+        if let Some(TokenTree::Group(g)) = toks.get(i) {
+            macro_fn_bodies(g.stream(), name, out);
+        }
+        i += 1;
+    }
+}
+
+/// uses of `self` in a closure body: `None` = `self` used as a whole somewhere,
+/// `Some(fields)` = only these fields are mentioned (`self.f` not followed by a call)
+fn self_uses(ts: TokenStream, whole: &mut bool, fields: &mut Vec<String>) {
+    let toks: Vec<TokenTree> = ts.into_iter().collect();
+    for i in 0..toks.len() {
+        match &toks[i] {
+            TokenTree::Group(g) => self_uses(g.stream(), whole, fields),
+            TokenTree::Ident(id) if id == "self" => {
+                let dot = matches!(toks.get(i + 1), Some(TokenTree::Punct(p)) if p.as_char() == '.');
+                let field = match toks.get(i + 2) {
+                    Some(TokenTree::Ident(f)) if dot => Some(f.to_string()),
+                    Some(TokenTree::Literal(l)) if dot => Some(l.to_string()),
+                    _ => None,
+                };
+                let is_call = match toks.get(i + 3) {
+                    Some(TokenTree::Group(g)) => g.delimiter() == Delimiter::Parenthesis,
+                    Some(TokenTree::Punct(p)) => p.as_char() == ':',
+                    _ => false,
+                };
+                match field {
+                    Some(f) if !is_call => {
+                        if !fields.contains(&f) {
+                            fields.push(f)
+                        }
+                    }
+                    _ => *whole = true,
+                }
+            }
+            _ => {}
+        }
+    }
+}
+
+/// Does the closure returned by every `into_func` own the handle's `SharedModuleData`?
+fn into_func_keeps_arc(
+    repo: &Path,
+    cg: &syn::File,
+    arc_field: Option<&str>,
+    handle_has_drop: bool,
+    notes: &mut Vec<String>,
+) -> Result<bool, String> {
+    // edition: disjoint closure captures exist from 2021 on
+    let cargo = std::fs::read_to_string(repo.join("Cargo.toml")).map_err(|e| format!("Cargo.toml: {e}"))?;
+    let edition: u32 = cargo
+        .lines()
+        .filter_map(|l| {
+            let l = l.trim();
+            let rest = l.strip_prefix("edition")?.trim_start().strip_prefix('=')?.trim();
+            rest.trim_matches('"').parse().ok()
+        })
+        .next()
+        .ok_or("Cargo.toml: no `edition = \"…\"`")?;
+    let mut bodies = vec![];
+    for item in &cg.items {
+        match item {
+            syn::Item::Macro(m) if m.ident.as_ref().map(|i| i == "call_impl").unwrap_or(false) => {
+                macro_fn_bodies(m.mac.tokens.clone(), "into_func", &mut bodies);
+            }
+            _ => {}
+        }
+    }
+    // an `into_func` written outside the macro
+    let mut all = ImplFns { cur: None, out: vec![], params: vec![] };
+    all.visit_file(cg);
+    for (imp, name, block) in &all.out {
+        if name == "into_func" && imp.starts_with("TypedFunc") {
+            let inner: TokenStream = block.stmts.iter().map(|s| s.to_token_stream()).collect();
+            bodies.push(("self".into(), inner));
+        }
+    }
+    if bodies.is_empty() {
+        return Err("no `fn into_func` found (neither in `macro_rules! call_impl` nor in an impl of TypedFunc)".into());
+    }
+    let mut keeps_all = true;
+    for (params, body) in bodies {
+        if params != "self" {
+            return Err(format!("into_func takes `{params}`, not `self`: conversion of a handle is not modelled"));
+        }
+        let toks: Vec<TokenTree> = body.into_iter().collect();
+        // the body must be one closure expression: [move] |params| body
+        let is_move = matches!(toks.first(), Some(TokenTree::Ident(i)) if i == "move");
+        let bars: Vec<usize> = toks
+            .iter()
+            .enumerate()
+            .filter(|(_, t)| matches!(t, TokenTree::Punct(p) if p.as_char() == '|'))
+            .map(|(i, _)| i)
+            .collect();
+        if !is_move || bars.len() < 2 || bars[0] != 1 {
+            return Err("into_func is not `move |args| <body>`: what the returned object owns is not modelled".into());
+        }
+        let rest: TokenStream = toks[bars[1] + 1..].iter().cloned().collect();
+        let (mut whole, mut fields) = (false, vec![]);
+        self_uses(rest, &mut whole, &mut fields);
+        let captures_whole = whole || edition < 2021 || handle_has_drop;
+        let keeps = captures_whole || arc_field.map(|f| fields.iter().any(|x| x == f)).unwrap_or(false);
+        notes.push(format!(
+            "into_func closure (edition {edition}): {} ↦ {}",
+            if captures_whole { "captures the whole handle".to_string() } else { format!("captures only self.{{{}}}", fields.join(",")) },
+            if keeps { "owns the Arc<ModuleData>" } else { "the SharedModuleData field is dropped when into_func returns" }
+        ));
+        keeps_all &= keeps;
+    }
+    Ok(keeps_all)
+}
+
+// ---------------------------------------------------------------- addresses baked into the code
+
+/// `self.module.<f>` (in FuncGen) / `self.<f>` (in ModuleBuilder) mentions and
+/// `self.module.<m>(…)` calls inside an expression
+struct Mentions<'a> {
+    base: &'a str,
+    fields: Vec<String>,
+    methods: Vec<String>,
+    idents: Vec<String>,
+    /// multi-segment paths (`crate::x::f`): items, never locals
+    items: Vec<String>,
+}
+impl<'ast> Visit<'ast> for Mentions<'_> {
+    fn visit_expr_field(&mut self, f: &'ast syn::ExprField) {
+        if norm(&f.base) == self.base {
+            let m = norm(&f.member);
+            if !self.fields.contains(&m) {
+                self.fields.push(m);
+            }
+        }
+        syn::visit::visit_expr_field(self, f);
+    }
+    fn visit_expr_method_call(&mut self, m: &'ast syn::ExprMethodCall) {
+        if norm(&m.receiver) == self.base {
+            self.methods.push(m.method.to_string());
+        }
+        syn::visit::visit_expr_method_call(self, m);
+    }
+    fn visit_expr_path(&mut self, p: &'ast syn::ExprPath) {
+        if let Some(i) = p.path.get_ident() {
+            self.idents.push(i.to_string());
+        } else {
+            self.items.push(norm(&p.path));
+        }
+    }
+}
+
+struct PatIdents(Vec<String>);
+impl<'ast> Visit<'ast> for PatIdents {
+    fn visit_pat_ident(&mut self, p: &'ast syn::PatIdent) {
+        self.0.push(p.ident.to_string());
+        syn::visit::visit_pat_ident(self, p);
+    }
+    fn visit_field_pat(&mut self, f: &'ast syn::FieldPat) {
+        // shorthand `Variant { to, name }`
+        syn::visit::visit_field_pat(self, f);
+    }
+}
+
+struct Locals(Vec<(Vec<String>, syn::Expr)>);
+impl<'ast> Visit<'ast> for Locals {
+    fn visit_local(&mut self, l: &'ast syn::Local) {
+        if let Some(init) = &l.init {
+            let mut p = PatIdents(vec![]);
+            p.visit_pat(&l.pat);
+            self.0.push((p.0, (*init.expr).clone()));
+        }
+        syn::visit::visit_local(self, l);
+    }
+}
+
+/// value arguments of `iconst(ty, v)` whose text shows a host address
+struct BakedConsts(Vec<syn::Expr>);
+impl<'ast> Visit<'ast> for BakedConsts {
+    fn visit_expr_method_call(&mut self, m: &'ast syn::ExprMethodCall) {
+        if m.method == "iconst" && m.args.len() == 2 {
+            let v = &m.args[1];
+            let t = norm(v);
+            if ["asusize", ".addr()", "as*const", "as*mut", ".as_ptr()", ".ptr()", ".as_mut_ptr()"].iter().any(|x| t.contains(x)) {
+                self.0.push(v.clone());
+            }
+        }
+        syn::visit::visit_expr_method_call(self, m);
+    }
+}
+
+struct Arms(Vec<syn::Arm>);
+impl<'ast> Visit<'ast> for Arms {
+    fn visit_arm(&mut self, a: &'ast syn::Arm) {
+        if let syn::Pat::Struct(_) | syn::Pat::TupleStruct(_) | syn::Pat::Path(_) = &a.pat {
+            if norm(&a.pat).contains("Instruction::") {
+                self.0.push(a.clone());
+                return; // nested matches belong to this arm
+            }
+        }
+        syn::visit::visit_arm(self, a);
+    }
+}
+
+/// Every kind of out-of-line data the emitted code refers to by address → its holder
+fn data_holders(cg: &syn::File, all: &ImplFns, notes: &mut Vec<String>) -> Result<Vec<&'static str>, String> {
+    let builder_fields = find::struct_fields(cg, "ModuleBuilder")?;
+    let finalize = all
+        .out
+        .iter()
+        .find(|(i, n, _)| n == "finalize" && i == "ModuleBuilder")
+        .ok_or("ModuleBuilder::finalize not found")?;
+    let mut lit = StructLit("Module", vec![]);
+    lit.visit_block(&finalize.2);
+    if lit.1.len() != 1 {
+        return Err(format!("ModuleBuilder::finalize: {} `Module {{…}}` literals", lit.1.len()));
+    }
+    // where does a builder field end up
+    let route = |f: &str| -> Result<&'static str, String> {
+        let want = format!("self.{f}");
+        for fv in &lit.1[0].fields {
+            let e = norm(&fv.expr);
+            if e == want {
+                return Ok("package");
+            }
+            if let syn::Expr::Call(c) = &fv.expr {
+                if norm(&c.func) == "SharedModuleData::new" {
+                    for (i, a) in c.args.iter().enumerate() {
+                        if norm(a) == want {
+                            return Ok(if i == 0 { "jit" } else { "moduleData" });
+                        }
+                    }
+                    continue;
+                }
+            }
+            if e.contains(&want) {
+                return Err(format!("ModuleBuilder::finalize uses `{want}` inside `{e}`: where the data ends up is not modelled"));
+            }
+        }
+        Ok("builder")
+    };
+    let codegen_txt = all
+        .out
+        .iter()
+        .find(|(i, n, _)| i.is_empty() && n == "codegen")
+        .map(|(_, _, b)| norm(b))
+        .unwrap_or_default();
+    let holder_of = |f: &str| -> Result<&'static str, String> {
+        let Some((_, ty)) = builder_fields.iter().find(|(n, _)| n == f) else {
+            return Err(format!("`{f}` is not a field of ModuleBuilder"));
+        };
+        if ty.contains("*const") || ty.contains("*mut") {
+            // a table of raw pointers: who owns the pointees?
+            if f == "runtime_functions"
+                && codegen_txt.contains("letptr=&rawconst**arc_boxas*constu8;")
+                && codegen_txt.contains("module.registered_fns.push(arc_box);")
+                && codegen_txt.contains("module.runtime_functions.insert(*func_ref,(ptr,func_id));")
+            {
+                return route("registered_fns");
+            }
+            return Err(format!("ModuleBuilder.{f} : {ty} holds raw pointers whose owner is not recognised"));
+        }
+        route(f)
+    };
+    let builder_method_fields = |m: &str| -> Option<Vec<String>> {
+        let hit = all.out.iter().find(|(i, n, _)| n == m && i == "ModuleBuilder")?;
+        let mut me = Mentions { base: "self", fields: vec![], methods: vec![], idents: vec![], items: vec![] };
+        me.visit_block(&hit.2);
+        Some(me.fields)
+    };
+
+    let mut out: Vec<&'static str> = vec![];
+    let mut n_sites = 0;
+    for (fn_idx, (imp, name, block)) in all.out.iter().enumerate() {
+        if !imp.starts_with("FuncGen") {
+            continue;
+        }
+        let fn_params = &all.params[fn_idx];
+        let mut arms = Arms(vec![]);
+        arms.visit_block(block);
+        // scopes: each instruction arm; and the function as a whole for what is outside arms
+        let mut scopes: Vec<(String, Vec<String>, syn::Expr)> = arms
+            .0
+            .iter()
+            .map(|a| {
+                let mut p = PatIdents(vec![]);
+                p.visit_pat(&a.pat);
+                // shorthand field patterns bind their member names
+                if let syn::Pat::Struct(ps) = &a.pat {
+                    for f in &ps.fields {
+                        p.0.push(norm(&f.member));
+                    }
+                }
+                let head = norm(&a.pat).split('{').next().unwrap_or("").split('(').next().unwrap_or("").to_string();
+                (format!("{name}/{head}"), p.0, (*a.body).clone())
+            })
+            .collect();
+        if arms.0.is_empty() {
+            scopes.push((name.clone(), vec![], syn::Expr::Block(syn::ExprBlock { attrs: vec![], label: None, block: block.clone() })));
+        }
+        for (label, bound, body) in &scopes {
+            // data objects defined in the JIT module
+            let txt = norm(body);
+            if txt.contains(".declare_anonymous_data(") || txt.contains(".declare_data(") {
+                if !(txt.contains(".define_data(") && txt.contains(".declare_data_in_func(") && txt.contains(".global_value(")) {
+                    return Err(format!("{label}: a data object is declared but not defined/used through a global value"));
+                }
+                notes.push(format!("{label}: data object defined in the JIT module ↦ Holder.jit"));
+                out.push("jit");
+                n_sites += 1;
+            }
+            let mut baked = BakedConsts(vec![]);
+            baked.visit_expr(body);
+            let mut locals = Locals(vec![]);
+            locals.visit_expr(body);
+            for v in baked.0 {
+                n_sites += 1;
+                // provenance: follow locals (≤ 4 levels) to builder fields
+                let mut fields: Vec<String> = vec![];
+                let mut from_ir = false;
+                let mut from_item = false; // a function / static item named by path
+                let mut unknown: Option<String> = None;
+                // the locals visible at the site: those bound before the statement that contains it
+                let vt = norm(&v);
+                let site = locals
+                    .0
+                    .iter()
+                    .position(|(_, init)| norm(init).contains(&vt))
+                    .unwrap_or(locals.0.len());
+                let mut work = vec![(v.clone(), site)];
+                while let Some((e, limit)) = work.pop() {
+                    let mut me = Mentions { base: "self.module", fields: vec![], methods: vec![], idents: vec![], items: vec![] };
+                    me.visit_expr(&e);
+                    for f in me.fields {
+                        if !fields.contains(&f) {
+                            fields.push(f);
+                        }
+                    }
+                    for m in me.methods {
+                        match builder_method_fields(&m) {
+                            Some(fs) => {
+                                for f in fs {
+                                    if !fields.contains(&f) {
+                                        fields.push(f);
+                                    }
+                                }
+                            }
+                            None => return Err(format!("{label}: address computed by unknown method `self.module.{m}`")),
+                        }
+                    }
+                    for id in me.idents {
+                        if let Some(j) = locals.0[..limit].iter().rposition(|(ids, _)| ids.contains(&id)) {
+                            work.push((locals.0[j].1.clone(), j));
+                        } else if bound.contains(&id) {
+                            // named directly in the baked expression: an immediate of the instruction;
+                            // reached through a local: bytes copied out of the instruction into host
+                            // memory are host data of unknown owner
+                            if limit == site {
+                                from_ir = true;
+                            } else {
+                                unknown = Some(id.clone());
+                            }
+                        } else if fn_params.contains(&id) || id == "self" {
+                            if id != "self" {
+                                unknown = Some(id.clone());
+                            }
+                        } else if id.chars().next().map(|c| c.is_lowercase()).unwrap_or(false) && limit == site {
+                            // not a local, not a parameter, not bound by the arm: an item (fn / static)
+                            from_item = true;
+                        }
+                    }
+                    if limit == site && !me.items.is_empty() {
+                        from_item = true;
+                    }
+                }
+                // fields that only describe the target, not data
+                fields.retain(|f| f != "isa");
+                if fields.is_empty() && unknown.is_none() {
+                    if from_ir {
+                        notes.push(format!("{label}: `{}` is an immediate of the IR instruction (a static function pointer)", norm(&v)));
+                        continue;
+                    }
+                    if from_item {
+                        notes.push(format!("{label}: `{}` is the address of an item (function / static)", norm(&v)));
+                        continue;
+                    }
+                }
+                if fields.is_empty() {
+                    return Err(format!("{label}: the origin of the address `{}` baked into the code is not recognised", norm(&v)));
+                }
+                for f in fields {
+                    let h = holder_of(&f)?;
+                    notes.push(format!("{label}: address from ModuleBuilder.{f} baked into the code ↦ Holder.{h}"));
+                    out.push(h);
+                }
+            }
+        }
+    }
+    if n_sites < 4 {
+        return Err(format!("only {n_sites} data/address sites found in FuncGen: the code generator changed shape"));
+    }
+    Ok(out)
+}
+
+/// a type built only from std containers and scalars: dropping it runs no user or script code
+fn is_plain_data(ty: &str) -> bool {
+    const OK: &[&str] = &[
+        "Vec", "VecDeque", "Box", "HashSet", "HashMap", "BTreeSet", "BTreeMap", "Option", "String", "str", "Arc", "u8", "u16",
+        "u32", "u64", "u128", "usize", "i8", "i16", "i32", "i64", "i128", "isize", "bool", "char", "f32", "f64", "ResolvedName",
+    ];
+    let words: Vec<&str> = ty.split(|c: char| !(c.is_alphanumeric() || c == '_')).filter(|w| !w.is_empty()).collect();
+    !words.is_empty()
+        && words.iter().all(|w| OK.contains(w))
+        && !ty.contains('*')
+        && !ty.contains("dyn")
+        && !ty.contains('&')
+        && ty.chars().all(|c| c.is_alphanumeric() || "_<>,[]()".contains(c))
+}
+
+fn param_names(sig: &syn::Signature) -> Vec<String> {
+    sig.inputs
+        .iter()
+        .filter_map(|a| match a {
+            syn::FnArg::Typed(t) => Some(norm(&t.pat).trim_start_matches("mut").to_string()),
+            _ => None,
+        })
+        .collect()
+}
+
 fn lifetime(repo: &Path) -> Result<String, String> {
     let cg = find::parse(repo, "src/codegen/mod.rs")?;
     let pl = find::parse(repo, "src/pipeline.rs")?;
@@ -116,13 +600,14 @@ fn lifetime(repo: &Path) -> Result<String, String> {
             "HashMap<ResolvedName,RotoConstant>" => "rotoConstants",
             "Vec<Arc<Box<dynAny>>>" => "registeredFns",
             "JITModuleWrapper" => "jit",
+            other if is_plain_data(other) => "plain",
             other => {
                 return Err(format!(
                     "ModuleData field `{name}` has an unrecognised type `{other}`: its drop behaviour is not modelled"
                 ));
             }
         };
-        if lean_fields.contains(&f) {
+        if f != "plain" && lean_fields.contains(&f) {
             return Err(format!("ModuleData has two fields of kind {f}"));
         }
         lean_fields.push(f);
@@ -196,7 +681,7 @@ fn lifetime(repo: &Path) -> Result<String, String> {
     let handle_holds = shared_is_arc && tf_field.is_some() && clones_arc;
 
     // ---- 3. what is cloned into the module
-    let mut all = ImplFns { cur: None, out: vec![] };
+    let mut all = ImplFns { cur: None, out: vec![], params: vec![] };
     all.visit_file(&cg);
     let body = |imp: &str, name: &str| -> Result<String, String> {
         let hits: Vec<_> = all
@@ -210,24 +695,62 @@ fn lifetime(repo: &Path) -> Result<String, String> {
         }
     };
     let codegen = body("", "codegen")?;
-    let finalize = body("ModuleBuilder", "finalize")?;
-    let md_new = body("ModuleData", "new")?;
-    let smd_new = body("SharedModuleData", "new")?;
     let declare_constant = body("ModuleBuilder", "declare_constant")?;
-    // construction plumbing: builder fields reach the ModuleData fields unchanged
-    if !smd_new.contains("Self(Arc::new(ModuleData::new(cranelift_jit,constants,roto_constants,registered_fns,)))") {
-        return Err("SharedModuleData::new does not build `Arc::new(ModuleData::new(cranelift_jit, constants, roto_constants, registered_fns))`".into());
+    // construction plumbing: which builder field reaches which ModuleData field
+    //   finalize: SharedModuleData::new(self.a, self.b, …)  →  Self(Arc::new(ModuleData::new(p1, p2, …)))
+    //   →  Self { field: p, …, jit_field: JITModuleWrapper(ManuallyDrop::new(p)) }
+    let smd = find::func(&cg, "new", Some("SharedModuleData"))?;
+    let mdn = find::func(&cg, "new", Some("ModuleData"))?;
+    let smd_params = param_names(&smd.sig);
+    let md_params = param_names(&mdn.sig);
+    let want = format!("Self(Arc::new(ModuleData::new({},)))", smd_params.join(","));
+    let want2 = format!("Self(Arc::new(ModuleData::new({})))", smd_params.join(","));
+    let smd_tail = norm(find::tail_expr(&smd.block)?);
+    if (smd_tail != want && smd_tail != want2) || md_params.len() != smd_params.len() {
+        return Err("SharedModuleData::new does not build `Arc::new(ModuleData::new(<its parameters, in order>))`".into());
     }
-    if !finalize.contains("SharedModuleData::new(self.inner,self.runtime_constants,self.roto_constants,self.registered_fns,)") {
-        return Err("ModuleBuilder::finalize does not pass (inner, runtime_constants, roto_constants, registered_fns) to SharedModuleData::new".into());
+    let mut md_lit = StructLit("Self", vec![]);
+    md_lit.visit_block(&mdn.block);
+    if md_lit.1.len() != 1 {
+        return Err(format!("ModuleData::new: {} `Self {{…}}` literals", md_lit.1.len()));
     }
-    let moved = |kind: &str, param: &str| -> bool {
+    let mut field_param: Vec<(String, usize, bool)> = vec![]; // ModuleData field ← parameter index, wrapped in JITModuleWrapper
+    for fv in &md_lit.1[0].fields {
+        let (m, e) = (norm(&fv.member), norm(&fv.expr));
+        if let Some(i) = md_params.iter().position(|p| *p == e) {
+            field_param.push((m, i, false));
+        } else if let Some(i) = md_params.iter().position(|p| e == format!("JITModuleWrapper(ManuallyDrop::new({p}))")) {
+            field_param.push((m, i, true));
+        } else {
+            return Err(format!("ModuleData::new initialises `{m}` with `{e}`: not a parameter moved in"));
+        }
+    }
+    let finalize_fn = find::func(&cg, "finalize", Some("ModuleBuilder"))?;
+    let mut fin_lit = StructLit("Module", vec![]);
+    fin_lit.visit_block(&finalize_fn.block);
+    let mut fin_args: Vec<String> = vec![];
+    if fin_lit.1.len() == 1 {
+        for fv in &fin_lit.1[0].fields {
+            if let syn::Expr::Call(c) = &fv.expr {
+                if norm(&c.func) == "SharedModuleData::new" && norm(&fv.member) == inner {
+                    fin_args = c.args.iter().map(|a| norm(a)).collect();
+                }
+            }
+        }
+    }
+    if fin_args.len() != smd_params.len() || fin_args.iter().any(|a| !a.starts_with("self.")) {
+        return Err(format!("ModuleBuilder::finalize does not pass {} builder fields to SharedModuleData::new: {fin_args:?}", smd_params.len()));
+    }
+    // ModuleData field of that kind is filled from that builder field
+    let moved = |kind: &str, builder_field: &str| -> bool {
         match field_named(kind) {
-            Some(f) => md_new.contains(&format!("{f}:{param},")),
+            Some(f) => field_param
+                .iter()
+                .any(|(m, i, wrapped)| *m == f && fin_args[*i] == format!("self.{builder_field}") && *wrapped == (kind == "jit")),
             None => false,
         }
     };
-    let consts_cloned = moved("constants", "constants")
+    let consts_cloned = moved("constants", "runtime_constants")
         && declare_constant.contains("self.runtime_constants.insert(constant.name,constant.value.clone());")
         && codegen.contains("forconstantinruntime.constants().values(){module.declare_constant(constant);}");
     if !consts_cloned {
@@ -244,13 +767,19 @@ fn lifetime(repo: &Path) -> Result<String, String> {
     if !moved("rotoConstants", "roto_constants") || !codegen.contains("module.roto_constants.insert(*name,constant);") {
         return Err("script constants no longer reach ModuleData's RotoConstant map".into());
     }
-    if !md_new.contains("JITModuleWrapper(ManuallyDrop::new(cranelift_jit))") {
-        return Err("ModuleData::new does not wrap the JIT module in JITModuleWrapper(ManuallyDrop::new(..))".into());
+    if !moved("jit", "inner") {
+        return Err("ModuleData::new does not wrap the builder's JIT module in JITModuleWrapper(ManuallyDrop::new(..))".into());
+    }
+    for ((name, _), kind) in fields.iter().zip(&lean_fields) {
+        if *kind == "plain" {
+            let src = field_param.iter().find(|(m, _, _)| m == name).map(|(_, i, _)| fin_args[*i].clone());
+            notes.push(format!("ModuleData.{name} (plain data) is filled from {}", src.unwrap_or("?".into())));
+        }
     }
 
     // ---- 4. who frees the code
     let mut sites = vec![];
-    let mut everything = ImplFns { cur: None, out: vec![] };
+    let mut everything = ImplFns { cur: None, out: vec![], params: vec![] };
     everything.visit_file(&cg);
     everything.visit_file(&pl);
     for (imp, name, block) in &everything.out {
@@ -273,20 +802,58 @@ fn lifetime(repo: &Path) -> Result<String, String> {
         sites.push(site);
     }
 
+    // ---- 5. what the closure made by into_func owns
+    let handle_has_drop = everything.out.iter().any(|(imp, name, _)| name == "drop" && imp.split('<').next() == Some("Drop for TypedFunc"));
+    let closure_keeps = shared_is_arc
+        && into_func_keeps_arc(repo, &cg, tf_field.as_deref(), handle_has_drop, &mut notes)?;
+
+    // ---- 6. out-of-line data the code refers to by address
+    let holders = data_holders(&cg, &all, &mut notes)?;
+
+    // ---- 7. a TestCase wraps the handle of its test function
+    let tg = find::parse(repo, "src/codegen/testing.rs")?;
+    let tc = find::struct_fields(&tg, "TestCase")?;
+    let tc_field = tc.iter().find(|(_, t)| t.starts_with("TypedFunc<")).map(|(n, _)| n.clone());
+    let test_holds = match &tc_field {
+        None => {
+            notes.push(format!("TestCase has no field of type TypedFunc<…>: {tc:?}"));
+            false
+        }
+        Some(f) => {
+            let new = find::func(&tg, "new", Some("TestCase"))?;
+            let run = find::func(&tg, "run", Some("TestCase"))?;
+            let get = find::func(&tg, "get_tests", None)?;
+            let new_t = norm(&new.block);
+            let stores = new_t.contains(&format!("{f},")) || new_t.contains(&format!("{f}}}")) || new_t.contains(&format!("{f}:{f}"));
+            let runs = norm(&run.block).contains(&format!("self.{f}.call_tuple(ctx,())"));
+            let get_t = norm(&get.block);
+            let builds = get_t.contains("TestCase::new(") && get_t.contains("module.get_function::<fn()->Verdict<(),()>>(");
+            let pkg_get = find::func(&pl, "get_tests", Some("Package"))?;
+            let pkg_ok = norm(&pkg_get.block).contains(&format!("get_tests(&mutself.{pkg_field})"));
+            if !(stores && runs && builds && pkg_ok) {
+                notes.push(format!("TestCase: stores the handle {stores}, runs through it {runs}, built from get_function {builds}, Package::get_tests forwards {pkg_ok}"));
+            }
+            stores && runs && builds && pkg_ok
+        }
+    };
+
     let b = |x: bool| if x { "true" } else { "false" };
     let mut out = String::new();
-    out.push_str("/- GENERATED by /verif/extract (target `lifetime`) from src/codegen/mod.rs, src/pipeline.rs, src/runtime/func.rs — do not edit.\n");
+    out.push_str("/- GENERATED by /verif/extract (target `lifetime`) from src/codegen/mod.rs, src/codegen/testing.rs, src/pipeline.rs, src/runtime/func.rs, Cargo.toml — do not edit.\n");
     for n in &notes {
         out.push_str(&format!("   {n}\n"));
     }
     out.push_str("-/\nimport RotoV.Model.Lifetime\nnamespace RotoV.Gen.Lifetime\nopen RotoV.Lifetime\n\n");
     out.push_str(&format!(
-        "def facts : Facts :=\n  {{ moduleFields := [{}]\n    handleHoldsArc := {}\n    constsCloned := {}\n    fnsCloned := {}\n    freeSites := [{}] }}\n",
+        "def facts : Facts :=\n  {{ moduleFields := [{}]\n    handleHoldsArc := {}\n    constsCloned := {}\n    fnsCloned := {}\n    freeSites := [{}]\n    closureKeepsArc := {}\n    testHoldsHandle := {}\n    dataHolders := [{}] }}\n",
         lean_fields.iter().map(|f| format!(".{f}")).collect::<Vec<_>>().join(", "),
         b(handle_holds),
         b(consts_cloned),
         b(fns_cloned),
         sites.iter().map(|f| format!(".{f}")).collect::<Vec<_>>().join(", "),
+        b(closure_keeps),
+        b(test_holds),
+        holders.iter().map(|f| format!(".{f}")).collect::<Vec<_>>().join(", "),
     ));
     out.push_str("\nend RotoV.Gen.Lifetime\n");
     Ok(out)
